@@ -33,6 +33,8 @@ Inductive item :=
 | ISlot (l : N) (body : items)             (* {% slot %} rendering a fill / its default; l = label of "Comp(slot:name)" *)
 | IProvide (body : items)                  (* {% provide %} ... {% endprovide %} *)
 | IDrop (body : items)                     (* body is rendered, its output (placeholders included) is thrown away *)
+| IExtract (body : items)                  (* fill discovery: the body of a {% component %} tag rendered with the
+                                              _DJANGO_COMPONENTS_GEN_FILL layer pushed on the tag's Context *)
 | IComp (isroot rootel : bool) (up : nat) (mask : list bool) (c : comp)
     (* a {% component %} tag / Component.render call.
        isroot : the context it receives names no parent component (it runs its own post-render queue in place)
@@ -79,22 +81,25 @@ Record st := mkSt {
   meta : list N;                   (* unbalanced Component._metadata_stack pushes (render id of the item) *)
   rctx : list (option N * N);      (* unbalanced render_context pushes: (whose stack, token = id the pushing render takes);
                                       None = the caller's Context, Some h = the context snapshot of host h's renderer *)
-  cbs : list (N * list N)          (* post_render_callbacks dictionaries, one per root (key = root id) *)
+  cbs : list (N * list N);         (* post_render_callbacks dictionaries, one per root (key = root id) *)
+  cdicts : list (option N * N)     (* unbalanced Context.dicts layers pushed by the library (fill discovery):
+                                      (whose Context: None = the caller's, Some h = host h's snapshot; token) *)
 }.
 
-Definition init : st := mkSt 0 None [] [] [] [] [] [] [] [] [].
+Definition init : st := mkSt 0 None [] [] [] [] [] [] [] [] [] [].
 
-Definition set_next v s := mkSt v (fault s) (cctx s) (rend s) (cattrs s) (pcache s) (prefs s) (allrefs s) (meta s) (rctx s) (cbs s).
-Definition set_fault v s := mkSt (next s) v (cctx s) (rend s) (cattrs s) (pcache s) (prefs s) (allrefs s) (meta s) (rctx s) (cbs s).
-Definition up_cctx f s := mkSt (next s) (fault s) (f (cctx s)) (rend s) (cattrs s) (pcache s) (prefs s) (allrefs s) (meta s) (rctx s) (cbs s).
-Definition up_rend f s := mkSt (next s) (fault s) (cctx s) (f (rend s)) (cattrs s) (pcache s) (prefs s) (allrefs s) (meta s) (rctx s) (cbs s).
-Definition up_cattrs f s := mkSt (next s) (fault s) (cctx s) (rend s) (f (cattrs s)) (pcache s) (prefs s) (allrefs s) (meta s) (rctx s) (cbs s).
-Definition up_pcache f s := mkSt (next s) (fault s) (cctx s) (rend s) (cattrs s) (f (pcache s)) (prefs s) (allrefs s) (meta s) (rctx s) (cbs s).
-Definition up_prefs f s := mkSt (next s) (fault s) (cctx s) (rend s) (cattrs s) (pcache s) (f (prefs s)) (allrefs s) (meta s) (rctx s) (cbs s).
-Definition up_allrefs f s := mkSt (next s) (fault s) (cctx s) (rend s) (cattrs s) (pcache s) (prefs s) (f (allrefs s)) (meta s) (rctx s) (cbs s).
-Definition up_meta f s := mkSt (next s) (fault s) (cctx s) (rend s) (cattrs s) (pcache s) (prefs s) (allrefs s) (f (meta s)) (rctx s) (cbs s).
-Definition up_rctx f s := mkSt (next s) (fault s) (cctx s) (rend s) (cattrs s) (pcache s) (prefs s) (allrefs s) (meta s) (f (rctx s)) (cbs s).
-Definition up_cbs f s := mkSt (next s) (fault s) (cctx s) (rend s) (cattrs s) (pcache s) (prefs s) (allrefs s) (meta s) (rctx s) (f (cbs s)).
+Definition set_next v s := mkSt v (fault s) (cctx s) (rend s) (cattrs s) (pcache s) (prefs s) (allrefs s) (meta s) (rctx s) (cbs s) (cdicts s).
+Definition set_fault v s := mkSt (next s) v (cctx s) (rend s) (cattrs s) (pcache s) (prefs s) (allrefs s) (meta s) (rctx s) (cbs s) (cdicts s).
+Definition up_cctx f s := mkSt (next s) (fault s) (f (cctx s)) (rend s) (cattrs s) (pcache s) (prefs s) (allrefs s) (meta s) (rctx s) (cbs s) (cdicts s).
+Definition up_rend f s := mkSt (next s) (fault s) (cctx s) (f (rend s)) (cattrs s) (pcache s) (prefs s) (allrefs s) (meta s) (rctx s) (cbs s) (cdicts s).
+Definition up_cattrs f s := mkSt (next s) (fault s) (cctx s) (rend s) (f (cattrs s)) (pcache s) (prefs s) (allrefs s) (meta s) (rctx s) (cbs s) (cdicts s).
+Definition up_pcache f s := mkSt (next s) (fault s) (cctx s) (rend s) (cattrs s) (f (pcache s)) (prefs s) (allrefs s) (meta s) (rctx s) (cbs s) (cdicts s).
+Definition up_prefs f s := mkSt (next s) (fault s) (cctx s) (rend s) (cattrs s) (pcache s) (f (prefs s)) (allrefs s) (meta s) (rctx s) (cbs s) (cdicts s).
+Definition up_allrefs f s := mkSt (next s) (fault s) (cctx s) (rend s) (cattrs s) (pcache s) (prefs s) (f (allrefs s)) (meta s) (rctx s) (cbs s) (cdicts s).
+Definition up_meta f s := mkSt (next s) (fault s) (cctx s) (rend s) (cattrs s) (pcache s) (prefs s) (allrefs s) (f (meta s)) (rctx s) (cbs s) (cdicts s).
+Definition up_rctx f s := mkSt (next s) (fault s) (cctx s) (rend s) (cattrs s) (pcache s) (prefs s) (allrefs s) (meta s) (f (rctx s)) (cbs s) (cdicts s).
+Definition up_cbs f s := mkSt (next s) (fault s) (cctx s) (rend s) (cattrs s) (pcache s) (prefs s) (allrefs s) (meta s) (rctx s) (f (cbs s)) (cdicts s).
+Definition up_cdicts f s := mkSt (next s) (fault s) (cctx s) (rend s) (cattrs s) (pcache s) (prefs s) (allrefs s) (meta s) (rctx s) (cbs s) (f (cdicts s)).
 
 (* ---------- sets / dict key lists over N ---------- *)
 Definition mem (x : N) (l : list N) : bool := existsb (N.eqb x) l.
@@ -192,6 +197,11 @@ Definition with_rc {A} (owner : option N) (tok : N) (m : M A) : M A :=
   modify (up_rctx (cons (owner, tok))) ;;
   (if rc_finally c then try_finally m (modify (up_rctx (rem1_tok tok)))
    else then_cleanup m (modify (up_rctx (rem1_tok tok)))).
+
+(* slots.py _extract_fill_content: with context.update({FILL_GEN_CONTEXT_KEY: captured_fills}): render the tag body *)
+Definition with_cd {A} (owner : option N) (m : M A) : M A := fun s =>
+  let tok := next s in
+  (modify (up_cdicts (cons (owner, tok))) ;; try_finally m (modify (up_cdicts (rem1_tok tok)))) s.
 
 (* perfutil/provide.py register_provide_reference *)
 Definition register (vis : list N) (id : N) : M unit := fun s =>
@@ -347,6 +357,7 @@ with prep_item (e : env) (i : item) {struct i} : M (list info) :=
   | ISlot l b => slot_wrap l (prep_items e b)
   | IProvide b => provide (fun pid => prep_items (mkEnv (e_avail e ++ [pid]) (e_anc e) (e_root e)) b)
   | IDrop b => prep_items e b ;; ret []
+  | IExtract b => with_cd (hd_error (e_anc e)) (prep_items e b)
   | IComp isroot rootel up mask (Comp name np body) =>
       let vis := select mask (e_avail e) in
       match isroot, e_anc e with
@@ -366,6 +377,7 @@ with defer_item (e : env) (path : list lbl) (i : item) (infos : list info) {stru
   | ISlot _ b => defer_items e path b infos
   | IProvide b => defer_items e path b infos
   | IDrop _ => ret infos
+  | IExtract b => defer_items e path b infos
   | IComp isroot _ _ _ (Comp name np body) =>
       match isroot, e_anc e with
       | false, _ :: _ =>
@@ -418,6 +430,7 @@ with pp_item (top : bool) (i : item) : nat :=
   | ISlot _ b => pp_items top b
   | IProvide b => pp_items top b
   | IDrop b => pp_items top b
+  | IExtract b => pp_items top b
   | IComp isroot _ _ _ (Comp _ np body) =>
       if isroot || top then np + (1 + pp_items false body + dp_items body + 1) else np
   end
@@ -429,6 +442,7 @@ with dp_item (i : item) : nat :=
   | ISlot _ b => dp_items b
   | IProvide b => dp_items b
   | IDrop _ => O
+  | IExtract b => dp_items b
   | IComp isroot _ _ _ (Comp _ np body) =>
       if isroot then O else 1 + pp_items false body + dp_items body + 1
   end.
@@ -443,6 +457,7 @@ with nk_item (top : bool) (i : item) : nat :=
   | ISlot _ b => nk_items top b
   | IProvide b => nk_items top b
   | IDrop _ => O
+  | IExtract b => nk_items top b
   | IComp isroot _ _ _ _ => if isroot || top then O else 1%nat
   end.
 
@@ -482,6 +497,7 @@ with sp_prep_item (top : bool) (i : item) (k : option nat) {struct i} : sres :=
   | ISlot l b => sp_map (slot_mark l) (sp_prep_items top b k)
   | IProvide b => sp_prep_items top b k
   | IDrop b => sp_prep_items top b k
+  | IExtract b => sp_prep_items top b k
   | IComp isroot _ _ _ (Comp name np body) =>
       if isroot || top
       then sp_map (annotate cfg_fixed [LName name])
@@ -500,6 +516,7 @@ with sp_defer_item (path : list lbl) (i : item) (k : option nat) {struct i} : sr
   | ISlot _ b => sp_defer_items path b k
   | IProvide b => sp_defer_items path b k
   | IDrop _ => SOk k
+  | IExtract b => sp_defer_items path b k
   | IComp isroot _ _ _ (Comp name np body) =>
       if isroot then SOk k
       else sp_deferred path name (sp_prep_items false body) (fun p => sp_defer_items p body) k
@@ -522,7 +539,7 @@ Definition tables_empty (s : st) : bool :=
   | _, _, _, _, _, _ => false
   end.
 Definition stacks_empty (s : st) : bool :=
-  match meta s, rctx s with [], [] => true | _, _ => false end.
+  match meta s, rctx s, cdicts s with [], [], [] => true | _, _, _ => false end.
 
 Definition subset (a b : list N) : bool := forallb (fun x => mem x b) a.
 Definition set_eqb (a b : list N) : bool := subset a b && subset b a.
@@ -542,7 +559,8 @@ Record obs := mkObs {
   o_out : oobs;
   o_cctx : list N; o_rend : list N; o_cattrs : list N; o_pcache : list N; o_prefs : list N; o_allrefs : list N;
   o_meta : list N;      (* render ids of component instances whose _metadata_stack is not empty afterwards *)
-  o_rc : nat            (* growth of the caller's render_context stack *)
+  o_rc : nat;           (* growth of the caller's render_context stack *)
+  o_cd : nat            (* growth of the caller's Context.dicts *)
 }.
 
 Definition out_eqb (o : outcome) (b : oobs) : bool :=
@@ -558,7 +576,8 @@ Definition obs_match (r : outcome * st) (b : obs) : bool :=
   && set_eqb (cctx s) (o_cctx b) && set_eqb (rend s) (o_rend b) && set_eqb (cattrs s) (o_cattrs b)
   && set_eqb (pcache s) (o_pcache b) && set_eqb (map fst (prefs s)) (o_prefs b) && set_eqb (allrefs s) (o_allrefs b)
   && set_eqb (meta s) (o_meta b)
-  && Nat.eqb (length (filter (fun x => match fst x with None => true | Some _ => false end) (rctx s))) (o_rc b).
+  && Nat.eqb (length (filter (fun x => match fst x with None => true | Some _ => false end) (rctx s))) (o_rc b)
+  && Nat.eqb (length (filter (fun x => match fst x with None => true | Some _ => false end) (cdicts s))) (o_cd b).
 
 (* a tree with the observation for each fault index tried (None = fault-free run) *)
 Definition tree_case := (items * nat * list (list mline * option nat * obs))%type.
